@@ -40,6 +40,7 @@ def run(F, rep, tier):
     binding_rule(F, rep)
     key_coverage_rule(F, rep)
     normalisation_rule(F, rep, tier)
+    name_characters_rule(F, rep)
     # premise (C13): parser actions leave the parsing scope balanced - a context popped or left behind by one construct changes which names the lexer knows afterwards
     from props import c13
     r3 = rep.rule("R13.3", "parser actions composed along the grammar: every start alternative leaves the parsing scope at its entry depth; names are added at depth >= 1 only")
@@ -920,3 +921,53 @@ def normalisation_rule(F, rep, tier="quick"):
         rep.undecided(rid, "normalisation", "%d of %d part sequences do not fold to a literal text" % (und, n))
     else:
         rep.ok(rid, "normalisation", "%d part sequences (up to %d parts over a word and the six symbols): identical texts" % (n, maxlen))
+
+
+# ====================================================================================================== R10.7
+NAME_START = [(0x3F, 0x3F), (0x41, 0x5A), (0x5F, 0x5F), (0x61, 0x7A), (0xC0, 0xD6), (0xD8, 0xF6), (0xF8, 0x2FF), (0x370, 0x37D), (0x37F, 0x1FFF), (0x200C, 0x200D),
+              (0x2070, 0x218F), (0x2C00, 0x2FEF), (0x3001, 0xD7FF), (0xF900, 0xFDCF), (0xFDF0, 0xFFFD), (0x10000, 0xEFFFF)]
+NAME_PART_EXTRA = [(0x30, 0x39), (0xB7, 0xB7), (0x300, 0x36F), (0x203F, 0x2040)]
+
+
+def name_characters_rule(F, rep):
+    """FEEL grammar rules 28 / 29 (DMN 1.3, 10.3.1.2): which characters may start / continue a name. The lexer's two predicates are folded on every boundary of the specified
+    ranges (lo-1, lo, hi, hi+1) and on samples inside them - among them characters that are no letters in Unicode's sense (the euro sign, the degree Celsius sign, ZWNJ, a
+    Devanagari virama) - and must answer exactly as the grammar."""
+    from hireval import Evaluator, TooManyPaths
+    rid = rep.rule("R10.7", "the lexer's name-start / name-part character classes are exactly those of FEEL grammar rules 28 and 29 (folded on all range boundaries and samples)")
+
+    def spec(cp, part):
+        ok = any(lo <= cp <= hi for lo, hi in NAME_START)
+        return ok or (part and any(lo <= cp <= hi for lo, hi in NAME_PART_EXTRA))
+    reps = set()
+    for lo, hi in NAME_START + NAME_PART_EXTRA:
+        reps |= {lo - 1, lo, hi, hi + 1, (lo + hi) // 2}
+    reps |= {0x20AC, 0x2103, 0x94D, 0xE48, 0xD7, 0xF7, 0x37E, 0x2000, 0x20, 0x2D, 0x2B, 0x2E, 0x2F, 0x27, 0x2A, 0x40, 0x5B, 0x60, 0x7B, 0x1F600, 0xE9, 0x4E2D, 0x3000}
+    reps = sorted(c for c in reps if 0 <= c <= 0x10FFFF and not (0xD800 <= c <= 0xDFFF))
+    for simple, part in (("is_name_start_char", False), ("is_name_part_char", True)):
+        fns = [n for n in F.hir if n.startswith("dmntk_feel_parser::lexer::") and n.endswith("::" + simple)]
+        if not fns:
+            rep.undecided(rid, simple, "no function %s in the lexer" % simple)
+            continue
+        h = F.hir[fns[0]]
+        probs, und = [], 0
+        for cp in reps:
+            ev = Evaluator(F, ints=True, max_paths=100, inline={n for n in F.hir if n.startswith("dmntk_feel_parser::lexer::") and "{closure" not in n and n != fns[0]})
+            try:
+                outs = ev.run(h["params"], h["body"], [("lit", chr(cp))])
+            except (TooManyPaths, ValueError, KeyError, RecursionError):
+                outs = None
+            vals = {v[1] if isinstance(v, tuple) and v[0] == "bool" else None for _, v in (outs or [(None, None)])}
+            if len(vals) != 1 or None in vals:
+                und += 1
+                continue
+            got = vals.pop()
+            if got != spec(cp, part) and len(probs) < 4:
+                probs.append("U+%04X %s" % (cp, "is accepted but is not in the grammar's ranges" if got else "is rejected although the grammar allows it"))
+        key = "chars:%s" % simple
+        if probs:
+            rep.violation(rid, key, "%s: %s - a name containing such a character %s" % (simple, "; ".join(probs), "is cut or is a syntax error"), "%s:%s" % (h["file"], h["line"]))
+        elif und:
+            rep.undecided(rid, key, "%d of %d representative characters do not fold" % (und, len(reps)))
+        else:
+            rep.ok(rid, key, "%d representative characters (all range boundaries of rule %s) classified as the grammar does" % (len(reps), "29" if part else "28"))
